@@ -32,8 +32,28 @@ ALIGNS = [0, 0, 123_457, -777_001]
 JUNK = -1000
 
 
-def dt(us: int) -> datetime:
-    return EPOCH + timedelta(microseconds=us)
+_ZONES = {}
+
+
+def zone(name):
+    """'utc' / '+02:00' (fixed offset) / an IANA zone with DST rules."""
+    if name in (None, "utc"):
+        return None
+    if name not in _ZONES:
+        if name[0] in "+-":
+            h, m = int(name[1:3]), int(name[4:6])
+            _ZONES[name] = timezone((1 if name[0] == "+" else -1) * timedelta(hours=h, minutes=m))
+        else:
+            from zoneinfo import ZoneInfo
+            _ZONES[name] = ZoneInfo(name)
+    return _ZONES[name]
+
+
+def dt(us: int, tz=None) -> datetime:
+    """the instant [us] microseconds after the epoch, stamped in UTC or in the zone [tz]
+    (same instant: zoneinfo datetimes of the repeated hour get fold=1 from astimezone)"""
+    d = EPOCH + timedelta(microseconds=us)
+    return d if tz is None else d.astimezone(tz)
 
 
 def us(d: datetime | None) -> int | None:
@@ -106,7 +126,7 @@ def fill_expect(f):
 CRASH_VAL = -987654321     # rendered to Coq for an unexpected exception: no model answer ever equals it
 
 
-def run_query(mw, q, via_buffer):
+def run_query(mw, q, via_buffer, tz=None):
     """One query -> canonical result: list of cells / one cell / 'IndexError' / 'CRASH:<exception>'."""
     k = q["k"]
     try:
@@ -115,19 +135,19 @@ def run_query(mw, q, via_buffer):
             return canon_list(tgt.window(q["s"], q["e"], fill_value=fillv(q["fill"])))
         if k == "wt":
             tgt = mw._buffer if (via_buffer and not q.get("facade")) else mw
-            return canon_list(tgt.window(dt(q["s"]), dt(q["e"]), fill_value=fillv(q["fill"])))
+            return canon_list(tgt.window(dt(q["s"], tz), dt(q["e"], tz), fill_value=fillv(q["fill"])))
         if k == "wm":   # mixed index / datetime
-            s = dt(q["s"]) if q["sd"] else q["s"]
-            e = q["e"] if q["sd"] else dt(q["e"])
+            s = dt(q["s"], tz) if q["sd"] else q["s"]
+            e = q["e"] if q["sd"] else dt(q["e"], tz)
             return canon_list(mw.window(s, e))
         if k == "si":   # mw[s:e] with indices
             return canon_list(mw[q["s"]:q["e"]])
         if k == "st":   # mw[ts:ts]
-            return canon_list(mw[dt(q["s"]):dt(q["e"])])
+            return canon_list(mw[dt(q["s"], tz):dt(q["e"], tz)])
         if k == "ai":
             return canon_val(mw.at(q["i"]) if q.get("via", "at") == "at" else mw[q["i"]])
         if k == "at":
-            return canon_val(mw.at(dt(q["t"])) if q.get("via", "at") == "at" else mw[dt(q["t"])])
+            return canon_val(mw.at(dt(q["t"], tz)) if q.get("via", "at") == "at" else mw[dt(q["t"], tz)])
     except IndexError:
         return "IndexError"
     except Exception as exc:  # noqa: BLE001 - any other exception is a finding, not a harness error
@@ -177,12 +197,12 @@ def round_trip(buf, how, ser):
     return copy.deepcopy(buf)
 
 
-def _do_update(buf, st, Sample, Quantity):
+def _do_update(buf, st, Sample, Quantity, tz=None):
     """-> (rejected, crash text or None)"""
     v = st["v"]
     val = None if v is None else Quantity(float("nan") if v == "nan" else float(v))
     try:
-        buf.update(Sample(dt(st["t"]), val))
+        buf.update(Sample(dt(st["t"], tz), val))
     except IndexError:
         return True, None
     except Exception as exc:  # noqa: BLE001
@@ -199,6 +219,7 @@ def run_history(case):
     shadow = None            # facade around the never-copied original, once a round trip happened
     out = {"cap": mw.capacity, "steps": []}
     via_buffer = case["kind"] != "mw"
+    tz, qtz = zone(case.get("tz")), zone(case.get("qtz"))
     for st in case["steps"]:
         crash = []
         if st["op"] == "rt":
@@ -212,20 +233,20 @@ def run_history(case):
                 crash.append(f"round trip ({st.get('how', 'dump')}) raised {type(exc).__name__}")
             rej = False
         else:
-            rej, cr = _do_update(mw._buffer, st, Sample, Quantity)
+            rej, cr = _do_update(mw._buffer, st, Sample, Quantity, tz)
             if cr:
                 crash.append(cr)
             if shadow is not None:
-                _do_update(shadow._buffer, st, Sample, Quantity)
+                _do_update(shadow._buffer, st, Sample, Quantity, tz)
         o = observe(mw)
         o["rej"] = rej
-        o["q"] = [run_query(mw, q, via_buffer) for q in st.get("q", [])]
+        o["q"] = [run_query(mw, q, via_buffer, qtz) for q in st.get("q", [])]
         if crash:
             o["crash"] = crash + o.get("crash", [])
         if shadow is not None:
             so = observe(shadow)
             so.pop("crash", None)
-            sq = [run_query(shadow, q, via_buffer) for q in st.get("q", [])]
+            sq = [run_query(shadow, q, via_buffer, qtz) for q in st.get("q", [])]
             diffs = [k for k in ("cv", "cc", "old", "new", "gaps", "cells", "bn") if so[k] != o[k]]
             diffs += [f"query {n}" for n, (x, y) in enumerate(zip(sq, o["q"])) if x != y]
             if diffs:
@@ -418,7 +439,7 @@ def off_choice(rng, p):
 def gen_queries(rng, case, newest_slot, n):
     cap, p, a = case["cap"], case["period"], case["align"]
     qs = []
-    base = newest_slot if newest_slot is not None else T0 // p
+    base = newest_slot if newest_slot is not None else case.get("base", T0) // p
     fills = FILLS
 
     def rts():
@@ -458,6 +479,12 @@ def gen_queries(rng, case, newest_slot, n):
     return qs
 
 
+# (zone, instants [s since epoch] of DST transitions: fall back = an hour of wall-clock time repeats
+# with fold=1, spring forward = an hour is skipped)
+DST_ZONES = [("Europe/Berlin", [1698541200, 1679792400]), ("America/New_York", [1699164000, 1678604400]),
+             ("Australia/Lord_Howe", [1680363000, 1696087800]), ("+02:00", [1698541200]), ("-09:30", [1679792400])]
+
+
 def gen_case(rng, nq_lo=2, nq_hi=4, maxlen=40, caps=None):
     cap = rng.choice(caps or [1, 1, 2, 2, 3, 3, 3, 4, 4, 5, 5, 6, 7, 8])
     p = rng.choice(PERIODS)
@@ -467,6 +494,18 @@ def gen_case(rng, nq_lo=2, nq_hi=4, maxlen=40, caps=None):
     n = rng.choice([1, 2, 3, 4, 5, 6, 8, 10, 12, 16, 20, 30, maxlen])
     n = min(n, maxlen)
     style = rng.choice(["mixed", "mixed", "mixed", "inorder", "gappy", "jumpy"])
+    t_first = T0
+    if rng.random() < 0.15:
+        # datetimes stamped in another zone (fixed offset, or a zone with DST rules) while the window
+        # slides through a DST transition: the same instants must give the same results as in UTC
+        zname, transitions = rng.choice(DST_ZONES)
+        p = case["period"] = rng.choice([900_000_000, 900_000_000, 1_800_000_000, 1_000_000])
+        case["tz"] = zname
+        case["qtz"] = rng.choice([zname, zname, "utc"])
+        case["base"] = rng.choice(transitions) * 1_000_000
+        t_first = case["base"] - rng.randrange(0, cap + 3) * p
+        n = max(n, rng.choice([6, 10, 14]))
+        style = rng.choice(["inorder", "inorder", "mixed"])
     newest = None
     nextv = 10
     hows = ["dump", "dump", "pickle", "deepcopy"]
@@ -477,7 +516,7 @@ def gen_case(rng, nq_lo=2, nq_hi=4, maxlen=40, caps=None):
         case["steps"].append(rt_step())
     for _ in range(n):
         if newest is None:
-            k = (T0 - a) // p + rng.randrange(0, 50)
+            k = (t_first - a) // p + (rng.randrange(0, 50) if t_first == T0 else 0)
         else:
             r = rng.random()
             if style == "inorder":
@@ -584,6 +623,23 @@ def boundary_cases():
             U(5, None, q=fq), U(11, None, q=fq)]})                                   # gaps at both edges
         out.append({"cap": 3, "period": p, "align": a, "kind": kind, "steps": [
             U(0, None, q=fq), U(1, 11, q=fq), U(2, "nan", q=fq), U(7, 17, q=fq), U(6, 16, q=fq)]})
+    # datetimes stamped in a zone with DST rules while the window slides through a transition
+    # (fall back: the repeated hour, fold=1; spring forward: the skipped hour), 15 min period
+    pz = 900_000_000
+    for zname, trans in DST_ZONES[:2]:
+        for tr in trans:
+            for kind, qtz in (("list", zname), ("numpy", "utc"), ("mw", zname)):
+                t0 = tr * 1_000_000 - 8 * pz
+                steps = []
+                for i in range(16):
+                    t = t0 + i * pz
+                    qs = [{"k": "wi", "s": None, "e": None, "fill": "nan"},
+                          {"k": "wt", "s": t - 5 * pz + 1, "e": t + pz, "fill": 0},
+                          {"k": "wt", "s": t - 2 * pz, "e": t, "fill": "nan"},
+                          {"k": "at", "t": t - pz}, {"k": "at", "t": t}, {"k": "ai", "i": -1}]
+                    steps.append({"op": "u", "t": t, "v": 100 + i, "q": qs})
+                out.append({"cap": 8, "period": pz, "align": 0, "kind": kind, "tz": zname, "qtz": qtz,
+                            "base": tr * 1_000_000, "steps": steps})
     # count_covered with a period that is not a binary fraction (3 * 0.1 s // 0.1 s)
     p = 100_000
     B = T0 // p
@@ -656,7 +712,10 @@ Definition check := check_case.
 def rel(t):
     """times are handed to Coq relative to T0 (16-digit literals are what makes coqc slow);
     the align point is shifted by the same amount, so slot numbers are unchanged."""
-    return None if t is None else t - T0
+    return None if t is None else t - _BASE[0]
+
+
+_BASE = [T0]     # set per case by case_term / show_term (rendering is single-threaded)
 
 
 def c_cell(v):
@@ -718,6 +777,7 @@ def c_step(st, o):
 
 
 def case_term(case, obs):
+    _BASE[0] = case.get("base", T0)
     cap = obs["cap"]
     init = clist([JUNK - i for i in range(cap)], lambda v: f"(Some {cZ(v)})")
     steps = "[" + ";\n    ".join(c_step(s, o) for s, o in zip(case["steps"], obs["steps"])) + "]"
@@ -725,6 +785,7 @@ def case_term(case, obs):
 
 
 def show_term(case, obs):
+    _BASE[0] = case.get("base", T0)
     cap = obs["cap"]
     init = clist([JUNK - i for i in range(cap)], lambda v: f"(Some {cZ(v)})")
     steps = "[" + "; ".join(
@@ -787,7 +848,7 @@ class RingStream(Stream):
 
     def labels(self, case, obs):
         out = [f"cap={case['cap']}", f"period_us={case['period']}", f"kind={case['kind']}",
-               f"align={'epoch' if case['align'] == 0 else 'offset'}",
+               f"align={'epoch' if case['align'] == 0 else 'offset'}", f"tz={case.get('tz', 'utc')}",
                f"updates={min(10 * (len(case['steps']) // 10), 40)}+"]
         p, a, cap = case["period"], case["align"], obs["cap"]
         newest = None
